@@ -219,3 +219,58 @@ fn c05_reuse_guard_injective() {
     forget(o2);
     kani::cover!(!same_guard);
 }
+
+// ---------------------------------------------------------------------- tag / hash comparisons
+// Every accept/reject decision on a MAC tag or hash ends in one of these comparisons; "a stale
+// confirmation tag / wrong parent hash always yields an error" requires them to be EXACT equality
+// (same length, same bytes) - a prefix or constant-time compare that forgets the length is not.
+
+fn sym_bytes_upto3(len: usize, a: [u8; 3]) -> Vec<u8> {
+    let mut v = Vec::with_capacity(3);
+    let mut i = 0;
+    while i < 3 {
+        if i < len {
+            v.push(a[i]);
+        }
+        i += 1;
+    }
+    v
+}
+
+fn exact_eq(la: usize, a: &[u8; 3], lb: usize, b: &[u8; 3]) -> bool {
+    let mut same = la == lb;
+    let mut i = 0;
+    while i < 3 {
+        if i < la && i < lb {
+            same &= a[i] == b[i];
+        }
+        i += 1;
+    }
+    same
+}
+
+macro_rules! cmp_harness {
+    ($name:ident, $mk:expr, $cmp:expr) => {
+        #[kani::proof]
+        #[kani::unwind(8)]
+        fn $name() {
+            let a = any_bytes::<3>();
+            let b = any_bytes::<3>();
+            let la: usize = kani::any();
+            let lb: usize = kani::any();
+            kani::assume(la <= 3 && lb <= 3);
+            let x = ($mk)(sym_bytes_upto3(la, a));
+            let y = ($mk)(sym_bytes_upto3(lb, b));
+            let got: bool = ($cmp)(&x, &y);
+            assert!(got == exact_eq(la, &a, lb, &b), "comparison is not exact equality of length and bytes");
+            kani::cover!(got && la == 3, "equal, full length");
+            kani::cover!(!got && la != lb && la > 0 && lb > 0, "one is a proper prefix-length of the other: unequal");
+            kani::cover!(!got && la == lb && la == 3, "same length, different bytes");
+            forget(x);
+            forget(y);
+        }
+    };
+}
+cmp_harness!(c03_cmp_confirmation_tag, |v: Vec<u8>| mls_rs::verif::derive::confirmation_tag_from(v), |x: &ConfirmationTag, y: &ConfirmationTag| x == y);
+cmp_harness!(c03_cmp_membership_tag, |v: Vec<u8>| MembershipTag::from(v), |x: &MembershipTag, y: &MembershipTag| x == y);
+cmp_harness!(c03_cmp_parent_hash, |v: Vec<u8>| mls_rs::verif::node::ParentHash::from(v), |x: &mls_rs::verif::node::ParentHash, y: &mls_rs::verif::node::ParentHash| x.matches(y));
